@@ -103,7 +103,8 @@ func Rank128(words []uint64, rindex []int32, i int32) (int32, int32) {
 	j := uint32(i & 63)
 	atRight := wordI & 1
 
-	n := rindex[(i+64)>>7]
+	// (i+64)>>7 without the int32 overflow of i+64 for i >= 2^31-64
+	n := rindex[(wordI+1)>>1]
 	w := words[wordI]
 
 	cnt1 := int32(bits.OnesCount64(w))
